@@ -282,6 +282,7 @@ def shape_set(seed, n_random, curated=None, cfg_variants=True, **kw):
             c['manual'] = 1 if rng.random() < 0.5 else 0
             c['bottomup'] = 1 if rng.random() < 0.35 else 0
             c['subst'] = rng.choice([4, 4, 4, 1, 2, 7])
+            c['taskcap'] = rng.choice([0, 0, 0, 0, 1, 2, 5])
         return c
     names = list(CURATED) if curated is None else curated
     for nm in names:
